@@ -510,6 +510,11 @@ class Table(Vector):
 		- if renaming fails (old name not found), no columns are renamed and KeyError is raised
 		"""
 
+		# Read the caller's sequences exactly once: the apply phase below must not
+		# depend on a second pass over caller objects that can fail half-way
+		old_names = list(old_names)
+		new_names = list(new_names)
+
 		if len(old_names) != len(new_names):
 			raise SerifValueError("old_names and new_names must have the same length")
 
